@@ -299,6 +299,19 @@ impl Scenario for C17 {
                 format!("`{}` (not among the known entry points), called with nobody's authorisation, changed the operators contract's state (members {:?})", func, m.members)
             });
             w.restore(&snap);
+            // the set changes only by the owner adding an absent address or removing a present one:
+            // no other entry point changes it, whoever authorises
+            let everybody: Vec<Address> = ctx.p[0..6].to_vec();
+            let snap = w.snap();
+            let before: Vec<Option<ScVal>> = (0..9).map(|i| w.query(&ctx.ops, "is_operator", &[ctx.p[i].to_val()])).collect();
+            let call = w.call(&contract, &func, &args, Auth::By(&everybody));
+            if call.ok {
+                let after: Vec<Option<ScVal>> = (0..9).map(|i| w.query(&ctx.ops, "is_operator", &[ctx.p[i].to_val()])).collect();
+                out.expect(before == after, "unknown-entry-point.changed-the-operator-set", || {
+                    format!("`{}` (not among the known entry points), called with every principal's authorisation, changed the operator set (members before {:?})", func, m.members)
+                });
+            }
+            w.restore(&snap);
         }
     }
 
@@ -312,7 +325,7 @@ fn main() {
         let mut o = Opts::new(tier, if tier == "thorough" { 14 } else { 10 });
         o.min_depth = 4;
         o.xcheck = tier == "thorough";
-        o.rule = "all sequences over add/remove operator X, Y, Z and an account-type address by {owner O, other owner N, stranger}, ownership transfers O<->N (and by non-owners, to self, to the all-zero account = renouncing, to the operators contract itself, and take-over attempts afterwards), execute by caller X/Y/Z authorised by {itself, a stranger, nobody, the owner, itself but for another forwarded function with the same arguments, itself but for another target contract, itself but for other forwarded arguments} forwarding to a probe contract: echo of 12 values of different types (incl. false, true, 0, the empty string, void), add(2,3), record(7,tag) (writes + emits, bounded to 2), a target returning an error, a panicking target, a missing function, wrong arity; explored to fixpoint; is_operator for all six accounts and for six bystanders (both targets, the contract itself, both owners, the all-zero account), owner() and the probe's delivery count compared after every new state; the probe target reports Z as its own owner / operator / admin / collector, which must give Z nothing; every exported function of the operators contract that the check does not drive by name is called with nobody's authorisation and must change nothing".into();
+        o.rule = "all sequences over add/remove operator X, Y, Z and an account-type address by {owner O, other owner N, stranger}, ownership transfers O<->N (and by non-owners, to self, to the all-zero account = renouncing, to the operators contract itself, and take-over attempts afterwards), execute by caller X/Y/Z authorised by {itself, a stranger, nobody, the owner, itself but for another forwarded function with the same arguments, itself but for another target contract, itself but for other forwarded arguments} forwarding to a probe contract: echo of 12 values of different types (incl. false, true, 0, the empty string, void), add(2,3), record(7,tag) (writes + emits, bounded to 2), a target returning an error, a panicking target, a missing function, wrong arity; explored to fixpoint; is_operator for all six accounts and for six bystanders (both targets, the contract itself, both owners, the all-zero account), owner() and the probe's delivery count compared after every new state; the probe target reports Z as its own owner / operator / admin / collector, which must give Z nothing; every exported function of the operators contract that the check does not drive by name is called with nobody's authorisation and must change nothing, and with every principal's authorisation and must leave the operator set alone".into();
         (C17, o)
     });
 }
